@@ -13,6 +13,6 @@ P = {
     ],
     "tiers": tiers(
         quick=[{"name": "rand", "mode": "run", "count": 5000, "max_size": 100, "shards": 8}],
-        thorough=[{"name": "rand", "mode": "run", "count": 40000, "max_size": 100, "shards": 16}],
+        thorough=[{"name": "rand", "mode": "run", "count": 600000, "max_size": 100, "shards": 16, "max_seconds": 1200}],
     ),
 }
